@@ -209,8 +209,15 @@ namespace pika::detail {
             return numa_sensitive;
         }
 
-        // use either cfgmap value or default
-        return cfgmap.get_value<std::size_t>("pika.numa_sensitive", default_);
+        // use either cfgmap value or default; a value given through the configuration is
+        // subject to the same restriction as one given on the command line
+        std::size_t numa_sensitive = cfgmap.get_value<std::size_t>("pika.numa_sensitive", default_);
+        if (numa_sensitive > 2)
+        {
+            throw pika::detail::command_line_error(
+                "Invalid value for pika.numa_sensitive. Allowed values are 0, 1, or 2");
+        }
+        return numa_sensitive;
     }
 
     ///////////////////////////////////////////////////////////////////////
